@@ -514,10 +514,10 @@ def run(ctx):
     ctx.trust("scipy interp1d (linear) and Slerp contracts (assumed; stand-in exercises the real ones)", "scipy Rotation Euler contracts (C17)",
               "pandas label algebra on concrete indexes (executed)", "z3, sympy")
     ctx.assume("index shapes are enumerated, not quantified", "Taylor's theorem for 'recovers to first order'")
-    _wrap(ctx, py)
-    _series_algebra(ctx, py)
-    _frames(ctx, py)
-    _standin(ctx, py)
+    ctx.guard(_wrap, ctx, py)
+    ctx.guard(_series_algebra, ctx, py)
+    ctx.guard(_frames, ctx, py)
+    ctx.guard(_standin, ctx, py)
 
 
 def replay(obligation, cex):
